@@ -333,8 +333,12 @@ def _expand_alias_refs(
     """
     expression = scope.expression
 
-    if not isinstance(expression, exp.Select) or dialect.DISABLES_ALIAS_REF_EXPANSION:
+    if not isinstance(expression, exp.Select):
         return
+
+    # Dialects that don't resolve alias references still need the columns under HAVING / QUALIFY
+    # qualified: those clauses are only visited here (see Scope.columns)
+    expand_aliases = not dialect.DISABLES_ALIAS_REF_EXPANSION
 
     alias_to_expression: dict[str, tuple[exp.Expr, int]] = {}
     projections = {s.alias_or_name for s in expression.selects}
@@ -416,7 +420,7 @@ def _expand_alias_refs(
                             ):
                                 inner.set("table", inner_table)
 
-    for i, projection in enumerate(expression.selects):
+    for i, projection in enumerate(expression.selects if expand_aliases else ()):
         replace_columns(projection)
         if isinstance(projection, exp.Alias):
             alias_to_expression[projection.alias] = (projection.this, i + 1)
@@ -444,12 +448,13 @@ def _expand_alias_refs(
                 for recursive_cte_column in cte.args["alias"].columns or cte.this.selects:
                     alias_to_expression.pop(recursive_cte_column.output_name, None)
 
-    replace_columns(expression.args.get("where"))
-    replace_columns(expression.args.get("group"), literal_index=True)
+    if expand_aliases:
+        replace_columns(expression.args.get("where"))
+        replace_columns(expression.args.get("group"), literal_index=True)
     replace_columns(expression.args.get("having"), resolve_table=True)
     replace_columns(expression.args.get("qualify"), resolve_table=True)
 
-    if dialect.SUPPORTS_ALIAS_REFS_IN_JOIN_CONDITIONS:
+    if expand_aliases and dialect.SUPPORTS_ALIAS_REFS_IN_JOIN_CONDITIONS:
         for join in expression.args.get("joins") or []:
             replace_columns(join)
 
